@@ -26,6 +26,8 @@ import (
 	"fmt"
 	"os"
 	"runtime"
+	"runtime/debug"
+	"runtime/pprof"
 	"sort"
 	"strconv"
 	"strings"
@@ -136,6 +138,10 @@ func txsFor(kind byte, height uint32) []*types.Transaction {
 }
 
 func build(height uint32, prev common.Uint256, ts uint32, root common.Uint256, txs []*types.Transaction, mut func(b *types.Block)) *types.Block {
+	return buildS(height, prev, ts, root, txs, mut, true)
+}
+
+func buildS(height uint32, prev common.Uint256, ts uint32, root common.Uint256, txs []*types.Transaction, mut func(b *types.Block), sign bool) *types.Block {
 	hdr := &types.Header{Version: types.CURR_HEADER_VERSION, ChainID: polyenv.ChainID(), PrevBlockHash: prev,
 		Timestamp: ts, Height: height, ConsensusData: uint64(height), ConsensusPayload: polyenv.VbftPayload(0, nil),
 		NextBookkeeper: polyenv.OperatorAddr(vals), BlockRoot: root}
@@ -143,6 +149,9 @@ func build(height uint32, prev common.Uint256, ts uint32, root common.Uint256, t
 	b.RebuildMerkleRoot()
 	if mut != nil {
 		mut(b)
+	}
+	if !sign {
+		return b // execution twin: ExecuteBlock never looks at the signatures
 	}
 	polyenv.SignHeader(hdr, vals)
 	nb, err := types.BlockFromRawBytes(b.ToArray()) // fresh hash caches; the decoder itself rejects a wrong tx root
@@ -178,6 +187,29 @@ type lctx struct {
 	dir   string
 	ch    *polyenv.Chain
 	dirty bool
+	// execution results of honest twins in state exKey (ExecuteBlock is read-only and depends only on the
+	// committed state and the twin; every call allocates a large overlay, so it is done once per twin)
+	exKey string
+	ex    map[common.Uint256]exRes
+}
+
+type exRes struct {
+	res store.ExecuteResult
+	err error
+}
+
+func (c *lctx) execTwin(twin *types.Block) (store.ExecuteResult, error) {
+	if c.exKey != c.key || c.ex == nil {
+		c.exKey, c.ex = c.key, map[common.Uint256]exRes{}
+	}
+	// the twin is identified by its transactions and position (unsigned twins share no hash cache issue)
+	k := twin.Hash()
+	if v, ok := c.ex[k]; ok {
+		return v.res, v.err
+	}
+	res, err := c.ch.L.ExecuteBlock(twin)
+	c.ex[k] = exRes{res, err}
+	return res, err
 }
 
 var perG sync.Map // goroutine id -> *lctx
@@ -486,12 +518,13 @@ type outcome struct {
 
 // submit runs block b through one path. twin = honest block with the same transactions at the canonical
 // position, used to obtain the execution result / state root the caller of AddBlock / SubmitBlock supplies.
-func submit(ch *polyenv.Chain, path string, b, twin *types.Block) (o outcome) {
+func submit(c *lctx, path string, b, twin *types.Block) (o outcome) {
+	ch := c.ch
 	l := ch.L
 	var res store.ExecuteResult
 	var xerr error
 	if path != "exec+submit" {
-		res, xerr = l.ExecuteBlock(twin)
+		res, xerr = c.execTwin(twin)
 	}
 	switch path {
 	case "add":
@@ -542,9 +575,15 @@ func errClass(err error) string {
 func main() {
 	native.Contracts[utils.NodeManagerContractAddress] = node_manager.RegisterNodeManagerContract
 	r := ev.Start("C13", "model_checking")
+	debug.SetGCPercent(1000) // every block execution / store open allocates multi-MiB buffers: keep freed spans for reuse
 	depth := r.QT(4, 5)
 	if v := os.Getenv("C13_DEPTH"); v != "" {
 		depth, _ = strconv.Atoi(v)
+	}
+	if pf := os.Getenv("C13_PROF"); pf != "" {
+		f, _ := os.Create(pf)
+		pprof.StartCPUProfile(f)
+		defer pprof.StopCPUProfile()
 	}
 	vals = polyenv.Keys(nVals)
 	polyenv.Setup(0, vals)
@@ -553,10 +592,19 @@ func main() {
 	genesis := polyenv.Rehash(polyenv.GenesisBlock(vals))
 	init0 := state{Desc: []string{"genesis"}, Blocks: []*types.Block{genesis}}
 
+	// hdr+add with a deviation that passes the header-level checks leaves an uncommitted header behind (the
+	// ledger must then be rebuilt), so only two block-root deviations take that path.
+	hdrRootDevs := map[string]bool{"root=zero": true, "root=of-previous-size": true}
 	events := func(s state, d int) []string {
 		var out []string
 		for _, dv := range devs {
+			if dv.info && len(s.Blocks) > 2 {
+				continue // informational deviations: shallow states only
+			}
 			for _, p := range paths {
+				if p == "hdr+add" && strings.HasPrefix(dv.name, "root=") && !hdrRootDevs[dv.name] {
+					continue
+				}
 				out = append(out, "dev|"+dv.name+"|"+p)
 			}
 		}
@@ -570,12 +618,17 @@ func main() {
 				}
 			}
 		}
-		// canonical successors last: every one of them costs a ledger rebuild for the following event
+		// canonical successors last (each costs a ledger rebuild for the following event): every successor
+		// through one path (rotating), one successor per state through all four paths.
+		i := 0
 		for _, k := range kinds {
 			for _, dl := range deltas {
-				for _, p := range paths {
-					out = append(out, fmt.Sprintf("ok|%c+%d|%s", k, dl, p))
+				for pi, p := range paths {
+					if i == len(s.Blocks)%6 || pi == (i+len(s.Blocks))%4 {
+						out = append(out, fmt.Sprintf("ok|%c+%d|%s", k, dl, p))
+					}
 				}
+				i++
 			}
 		}
 		return out
@@ -603,7 +656,7 @@ func main() {
 				return s, false
 			}
 			devName = f[1]
-			twin = build(n, m[n-1].Hash, m[n-1].TS+1, refRoot(m), b.Transactions, nil)
+			twin = buildS(n, m[n-1].Hash, m[n-1].TS+1, refRoot(m), b.Transactions, nil, false)
 		case "resubmit":
 			j, _ := strconv.Atoi(f[1])
 			if f[2] == "same" {
@@ -625,7 +678,7 @@ func main() {
 		before := fp(ch, true)
 		beforeNoIdx := fp(ch, false)
 		var o outcome
-		if x, p := ev.Guard(func() { o = submit(ch, path, b, twin) }); p {
+		if x, p := ev.Guard(func() { o = submit(c, path, b, twin) }); p {
 			r.Class("panic")
 			r.Violation("panic:"+f[0]+":"+devName+"/"+path, map[string]any{"state": s.Desc, "event": e, "panic": fmt.Sprint(x)})
 			c.dirty = true
@@ -770,6 +823,7 @@ func main() {
 	r.Assume("signatures/quorum are C14's subject: every block here is honestly signed by all 4 validators",
 		"tx-root and duplicate-transaction deviations are informational: the property does not state them (block decoder / tx pool own them)",
 		"AddBlock / SubmitBlock receive the execution result of the honest twin block with the same transactions (what a caller that executed the block would pass)")
+	pprof.StopCPUProfile()
 	var dn []string
 	for _, d := range devs {
 		dn = append(dn, d.name)
